@@ -77,6 +77,60 @@ def wsdl_request(sx, transport):
     return not problems
 
 
+@harness('C13', params=['wsgi-chunked', 'wsgi-unchunked'],
+         functions=['spyne.server.wsgi.WsgiApplication.handle_wsdl_request'],
+         bounds={'schedule': '?wsdl requests that cannot be answered: the application publishes no WSDL document, or building it raises '
+                             '(fault injected into the interface document builder)'})
+def wsdl_request_failures(sx, transport):
+    """a ?wsdl request that fails is still a PEP 3333 response - one start_response with a non-2xx status, bytes chunks - and
+    its context is closed once"""
+    import io
+    from spyne.server.wsgi import WsgiApplication
+    app = P.get_app('soap11')
+    w = WsgiApplication(app, chunked=(transport == 'wsgi-chunked'))
+    failure = sx.choose('failure', ['no wsdl document', 'builder raises'])
+    # (the interface documents belong to the application: every change is undone below)
+    docs, orig = w.doc, w.doc.wsdl11
+
+    class _Failing(object):
+        def get_interface_document(self):
+            return None
+
+        def build_interface_document(self, url):
+            raise RuntimeError('cannot build 4711')
+    docs.wsdl11 = None if failure == 'no wsdl document' else _Failing()
+    w._wsdl = None
+    environ = {'REQUEST_METHOD': 'GET', 'PATH_INFO': '/svc/', 'QUERY_STRING': 'wsdl', 'SERVER_NAME': 'localhost', 'SERVER_PORT': '80',
+               'wsgi.url_scheme': 'http', 'wsgi.input': io.BytesIO(b''), 'CONTENT_LENGTH': '0'}
+    rec = P.Record()
+    closed = []
+    counting = lambda ctx: closed.append(len(rec.chunks))
+    app.event_manager.add_listener('method_context_closed', counting)
+
+    def start_response(status, headers, exc_info=None):
+        rec.start_response.append((status, headers, len(rec.chunks)))
+    try:
+        it = w(environ, start_response)
+        rec.extra['iter_started_with_start_response'] = len(rec.start_response)
+        for c in it:
+            rec.chunks.append(c)
+        if hasattr(it, 'close'):
+            it.close()
+    except Exception as e:
+        rec.escaped = e
+    finally:
+        app.event_manager.handlers['method_context_closed'].remove(counting)
+        docs.wsdl11 = orig
+    rec.extra['closed'] = closed
+    problems = O.check_wsgi({'proto': 'soap11'}, rec, allow_eager_close=True)
+    if rec.start_response and rec.start_response[0][0].startswith('2'):
+        problems.append('a failed wsdl request answered with %s' % rec.start_response[0][0])
+    if any(isinstance(c, bytes) and b'4711' in c for c in rec.chunks):
+        problems.append('the text of the exception is in the response')
+    sx.observe('problems', problems)
+    return not problems
+
+
 # ---------------------------------------------------------------- streaming results and client aborts
 from spyne import Application, Service, rpc
 from spyne.model.primitive import Integer
